@@ -42,6 +42,10 @@ pub struct Run {
     pub inapplicable: bool,
 }
 
+pub fn view_record(sec: u8, r: &Record) -> RecView {
+    view(sec, r)
+}
+
 fn view(sec: u8, r: &Record) -> RecView {
     RecView {
         sec,
@@ -243,7 +247,16 @@ pub fn judge(hier: &Hier, q: &(Name, RecordType), honest_answer: &Message, out: 
                 if r.sec == 0 {
                     classes.push("indeterminate");
                 }
-                j.obs.push("obs:data-record-indeterminate".into());
+                // a data record of a signed zone handed out without any verdict: neither
+                // Secure nor an error/Bogus
+                if r.sec == 0 && cand.iter().all(|z| hier.status_zone(*z) != Status::Insecure) {
+                    j.findings.push(Finding {
+                        clause: "indeterminate-data-for-signed-zone".into(),
+                        what: format!("{} {} of the signed zone {} returned without a verdict (proof Indeterminate)", r.owner, r.rtype, pz_origin),
+                    });
+                } else {
+                    j.obs.push("obs:data-record-indeterminate".into());
+                }
             }
         }
     }
@@ -271,23 +284,14 @@ pub fn judge(hier: &Hier, q: &(Name, RecordType), honest_answer: &Message, out: 
         let validated_denial = recs.iter().any(|r| r.sec == 1 && r.proof == Proof::Secure && matches!(r.rtype, RecordType::NSEC | RecordType::NSEC3));
         let any_insecure = recs.iter().any(|r| r.sec == 1 && r.proof == Proof::Insecure);
         let foreign_sig = recs.iter().any(|r| r.sec == 1 && r.proof == Proof::Insecure && r.sig.as_ref().map(|(_, n)| !n.zone_of(&r.owner)).unwrap_or(false));
-        // an NSEC/NSEC3 that is itself not authenticated, next to an authenticated record of
-        // another type at the same owner (the validator picks NSECs by "some Secure record has
-        // this owner")
-        let unauth_nsec_beside_secure = recs.iter().any(|r| {
-            r.sec == 1
-                && matches!(r.rtype, RecordType::NSEC | RecordType::NSEC3)
-                && r.proof != Proof::Secure
-                && recs.iter().any(|o| o.sec == 1 && o.sig.is_none() && o.owner == r.owner && o.rtype != r.rtype && o.proof == Proof::Secure)
-        });
+        // (the former class "unauthenticated NSEC beside a Secure record of the same owner" named RC4 by
+        // construction; RC4 is repaired (9d82d09), such responses now fall under the general classes)
         let pc = if validated_denial {
             "validated-denial"
         } else if any_insecure && foreign_sig {
             "authority-rrsig-signer-not-enclosing-owner"
         } else if any_insecure {
             "insecure-authority"
-        } else if unauth_nsec_beside_secure {
-            "unauthenticated-nsec-beside-secure-record-of-same-owner"
         } else if recs.iter().any(|r| r.sec == 1) {
             "unvalidated-authority"
         } else {
